@@ -20,6 +20,10 @@ import (
 
 const wsNamespace = "urn:ietf:params:xml:ns:xmpp-framing"
 
+// NSFraming is the namespace of the stream opening and closing elements of the
+// WebSocket subprotocol.
+const NSFraming = wsNamespace
+
 // Send sends a new XML header followed by a stream start element on the given
 // io.Writer.
 // We don't use an xml.Encoder both because Go's standard library xml package
